@@ -25,6 +25,7 @@ class Models:
         # Debug / Hash(outside C02) impls are modelled instead (identity / opaque)
         self.interpret = lambda ty, trait, method: trait not in ('Clone', 'Debug', 'Display')
         register_all(self)
+        register_more(self)
 
     def add(self, selfty, trait, method, fn):
         self.table[(selfty, trait, method)] = fn
@@ -819,6 +820,35 @@ def iter_next(I, fr, it):
                         fr.mem = o.mem
                         out.append((gand(g, o.guard), o.value, IterV('map', [ni, f])))
         return out
+    if k == 'filter':
+        out = []
+        for g, x, ni in iter_next(I, fr, it.fields[0]):
+            f = it.fields[1]
+            if x is None or isinstance(x, Outcome):
+                out.append((g, x, IterV('filter', [ni, f]) if ni is not None else None))
+                continue
+            v, p = _bool_of_call(I, fr, f, [mk_sref(x)])
+            for o in p:
+                out.append((gand(g, o.guard), o, None))
+            if not g_false(v):
+                out.append((gand(g, v), x, IterV('filter', [ni, f])))
+            if not g_true(v):
+                # skipped: continue with the rest
+                for g2, y, nj in iter_next(I, fr, IterV('filter', [ni, f])):
+                    out.append((gand(g, gnot(v), g2), y, nj))
+        return out
+    if k == 'zip':
+        out = []
+        for g, x, ni in iter_next(I, fr, it.fields[0]):
+            if x is None or isinstance(x, Outcome):
+                out.append((g, x, IterV('zip', [ni, it.fields[1]]) if ni is not None else None))
+                continue
+            for g2, y, nj in iter_next(I, fr, it.fields[1]):
+                if y is None or isinstance(y, Outcome):
+                    out.append((gand(g, g2), y, IterV('zip', [ni, nj]) if nj is not None else None))
+                else:
+                    out.append((gand(g, g2), mk_tuple([x, y]), IterV('zip', [ni, nj])))
+        return out
     raise EngineError('next() on iterator kind ' + k)
 
 
@@ -1154,3 +1184,398 @@ def register_all(M):
         A(t, 'Hash', 'hash', m_hash_write)
     A(None, 'Hash', 'hash', m_hash_write)
     A('intrinsics', None, 'discriminant_value', m_discriminant_value)
+
+
+# ------------------------------------------------------------------------------------------------ more std models
+# (used by changed trees; the unchanged crate does not need most of them)
+
+def _bool_of_call(I, fr, f, args):
+    """-> (Bool value, [panic outcomes]) of a pure predicate call"""
+    val = None
+    pans = []
+    for o in call_mut_closure(I, fr, f, args):
+        if o.kind == 'panic':
+            pans.append(o)
+        else:
+            val = o.value if val is None else gite(o.guard, o.value, val)
+    return val, pans
+
+
+def _lt_values(I, fr, x, y, cmpf=None):
+    """Bool: x < y (by Ord / by comparator closure returning Ordering)"""
+    if cmpf is not None:
+        o = None
+        for out in call_mut_closure(I, fr, cmpf, [mk_sref(x), mk_sref(y)]):
+            if out.kind == 'ret':
+                o = out.value if o is None else merge(out.guard, out.value, o)
+        return o.alts[0][0] if 0 in o.alts else False
+    o, p = ordering_of(I, fr, x, y)
+    return o.alts[0][0] if 0 in o.alts else False
+
+
+def m_sort(I, fr, a, ck):
+    """stable insertion sort over a concrete-length sequence with symbolic comparisons (elements become ite merges)"""
+    s = _seq(I, fr, a[0])
+    cmpf = a[1] if len(a) > 1 and ck.method in ('sort_by', 'sort_unstable_by') else None
+    keyf = a[1] if len(a) > 1 and ck.method in ('sort_by_key', 'sort_unstable_by_key') else None
+    items = list(s.items)
+    if keyf is not None:
+        raise EngineError('sort_by_key is not modelled')
+    out = []
+    for x in items:
+        # insert x into sorted `out` (after all elements <= x)
+        new = []
+        placed = False      # Bool: x already placed before position j
+        n = len(out)
+        # position p = number of elements y in out with not (x < y)  (stable: equal keep order)
+        le = [gnot(_lt_values(I, fr, x, y, cmpf)) for y in out]     # y <= x
+        # since `out` is sorted, le is a prefix pattern; position = count of le
+        for j in range(n + 1):
+            # element at j of the new list: out[j] if j < p ; x if j == p ; out[j-1] if j > p
+            before = gand(*le[:j + 1]) if j < n else False           # p > j  <=> le[0..j] all true
+            at = gand(gand(*le[:j]) if j else True, gnot(le[j]) if j < n else True)   # p == j
+            cand = None
+            if j < n:
+                cand = out[j]
+            if j > 0:
+                prev = out[j - 1]
+            v = None
+            if j < n and j > 0:
+                v = merge(before, out[j], merge(at, x, out[j - 1]))
+            elif j == 0 and n > 0:
+                v = merge(before, out[0], x)
+            elif j == 0:
+                v = x
+            else:
+                v = merge(at, x, out[j - 1])
+            new.append(v)
+        out = new
+    write_mref(I, fr, a[0], Seq(out))
+    return UNIT
+
+
+def _fork_filter(I, fr, items, keep_fn):
+    """-> list of (guard, kept_items, panics) over all keep/drop patterns (concrete length bound)"""
+    states = [(True, [])]
+    pans = []
+    for idx, x in enumerate(items):
+        nxt = []
+        for g, acc in states:
+            keep, p = keep_fn(idx, x, acc)
+            pans.extend(Outcome('panic', gand(g, o.guard), None, None, o.msg) for o in p)
+            if not g_false(keep):
+                nxt.append((gand(g, keep), acc + [x]))
+            if not g_true(keep):
+                nxt.append((gand(g, gnot(keep)), acc))
+        states = nxt
+        if len(states) > 256:
+            raise EngineError('too many filter patterns')
+    return states, pans
+
+
+def m_dedup(I, fr, a, ck):
+    s = _seq(I, fr, a[0])
+
+    def keep(idx, x, acc):
+        if not acc:
+            return True, []
+        e, p = _single_bool(I, fr, value_eq_call(I, fr, acc[-1], x))
+        return gnot(e), p
+    states, pans = _fork_filter(I, fr, s.items, keep)
+    res = Outs(pans)
+    base = fr.mem
+    for g, acc in states:
+        m = dict(base)
+        r = a[0]
+        m[r.cell] = set_mpath(I, base[r.cell], r.path, Seq(acc))
+        res.append(Outcome('ret', g, UNIT, m))
+    return res
+
+
+def m_vec_retain(I, fr, a, ck):
+    s = _seq(I, fr, a[0])
+    f = a[1]
+
+    def keep(idx, x, acc):
+        return _bool_of_call(I, fr, f, [mk_sref(x)])
+    states, pans = _fork_filter(I, fr, s.items, keep)
+    res = Outs(pans)
+    base = fr.mem
+    for g, acc in states:
+        m = dict(base)
+        r = a[0]
+        m[r.cell] = set_mpath(I, base[r.cell], r.path, Seq(acc))
+        res.append(Outcome('ret', g, UNIT, m))
+    return res
+
+
+def m_iter_filter(I, fr, a, ck):
+    return IterV('filter', [to_iter(I, fr, a[0]), a[1]])
+
+
+def m_iter_rev(I, fr, a, ck):
+    it = to_iter(I, fr, a[0])
+    if it.kind in ('slice', 'vals'):
+        s, pos = it.fields
+        return IterV(it.kind, [Seq(tuple(reversed(s.items[pos:]))), 0])
+    if it.kind == 'range':
+        lo, hi = it.fields
+        return IterV('vals', [Seq(tuple(range(hi - 1, lo - 1, -1))), 0])
+    raise EngineError('rev on ' + it.kind)
+
+
+def m_iter_skip(I, fr, a, ck):
+    it = to_iter(I, fr, a[0])
+    n = a[1]
+    if it.kind in ('slice', 'vals') and isinstance(n, int):
+        s, pos = it.fields
+        return IterV(it.kind, [s, min(len(s.items), pos + n)])
+    raise EngineError('skip on ' + it.kind)
+
+
+def m_iter_take(I, fr, a, ck):
+    it = to_iter(I, fr, a[0])
+    n = a[1]
+    if it.kind in ('slice', 'vals') and isinstance(n, int):
+        s, pos = it.fields
+        return IterV(it.kind, [Seq(s.items[:pos + n]), pos])
+    raise EngineError('take on ' + it.kind)
+
+
+def m_iter_zip(I, fr, a, ck):
+    x = to_iter(I, fr, a[0])
+    y = to_iter(I, fr, m_into_iter(I, fr, [a[1]], ck))
+    return IterV('zip', [x, y])
+
+
+def _drained_items(I, fr, it):
+    """all (guard, items, mem) of draining an iterator; panics as Outcome in items position"""
+    return drain(I, fr, it)
+
+
+def m_iter_all(I, fr, a, ck):
+    it = to_iter(I, fr, a[0] if isinstance(a[0], IterV) else I.peel_all(a[0], fr))
+    f = a[1]
+    res = Outs()
+    for g, acc, mem in drain(I, fr, it):
+        if isinstance(acc, Outcome):
+            res.append(Outcome('panic', g, None, None, acc.msg))
+            continue
+        fr.mem = mem
+        val = True
+        for x in acc:
+            v, p = _bool_of_call(I, fr, f, [x])
+            for o in p:
+                res.append(Outcome('panic', gand(g, val, o.guard), None, None, o.msg))
+            val = gand(val, v)
+        res.append(Outcome('ret', g, val, mem))
+    return res
+
+
+def m_iter_count(I, fr, a, ck):
+    it = to_iter(I, fr, a[0])
+    res = Outs()
+    for g, acc, mem in drain(I, fr, it):
+        if isinstance(acc, Outcome):
+            res.append(Outcome('panic', g, None, None, acc.msg))
+        else:
+            res.append(Outcome('ret', g, len(acc), mem))
+    return res
+
+
+def m_iter_position(I, fr, a, ck):
+    it = to_iter(I, fr, I.peel_all(a[0], fr) if isinstance(a[0], (SRef, MRef)) else a[0])
+    f = a[1]
+    res = Outs()
+    for g, acc, mem in drain(I, fr, it):
+        if isinstance(acc, Outcome):
+            res.append(Outcome('panic', g, None, None, acc.msg))
+            continue
+        fr.mem = mem
+        out = NONE
+        for j in range(len(acc) - 1, -1, -1):
+            v, p = _bool_of_call(I, fr, f, [acc[j]])
+            out = merge(v, some(j), out)
+        res.append(Outcome('ret', g, out, mem))
+    return res
+
+
+def m_iter_find(I, fr, a, ck):
+    r = a[0]
+    it = I.peel_all(r, fr) if isinstance(r, (SRef, MRef)) else r
+    it = to_iter(I, fr, it)
+    f = a[1]
+    res = Outs()
+    for g, acc, mem in drain(I, fr, it):
+        if isinstance(acc, Outcome):
+            res.append(Outcome('panic', g, None, None, acc.msg))
+            continue
+        fr.mem = mem
+        out = NONE
+        for j in range(len(acc) - 1, -1, -1):
+            v, p = _bool_of_call(I, fr, f, [mk_sref(acc[j])])
+            out = merge(v, some(acc[j]), out)
+        res.append(Outcome('ret', g, out, mem))
+    return res
+
+
+def m_rc_ptr_eq(I, fr, a, ck):
+    x = I.peel_all(a[0], fr)
+    y = I.peel_all(a[1], fr)
+    if x is y:
+        return True
+    # pointer identity is not modelled: equal pointers imply equal contents, nothing more is known
+    e, p = _single_bool(I, fr, value_eq_call(I, fr, x, y))
+    return gand(I.fresh_bool('ptr_eq'), e)
+
+
+def m_option_map(I, fr, a, ck):
+    v, f = a
+    res = Outs()
+    if 0 in v.alts and not g_false(v.alts[0][0]):
+        res.append(ret(NONE, v.alts[0][0]))
+    if 1 in v.alts and not g_false(v.alts[1][0]):
+        for o in call_closure(I, fr, f, [v.alts[1][1][0]]):
+            res.append(Outcome(o.kind, gand(v.alts[1][0], o.guard), some(o.value) if o.kind == 'ret' else None, o.mem, o.msg))
+    return res
+
+
+def m_option_unwrap_or(I, fr, a, ck):
+    v, d = a
+    res = d
+    if 1 in v.alts:
+        res = merge(v.alts[1][0], v.alts[1][1][0], d)
+    return res
+
+
+def m_option_map_or(I, fr, a, ck):
+    v, d, f = a
+    res = Outs()
+    if 0 in v.alts and not g_false(v.alts[0][0]):
+        res.append(ret(d, v.alts[0][0]))
+    if 1 in v.alts and not g_false(v.alts[1][0]):
+        for o in call_closure(I, fr, f, [v.alts[1][1][0]]):
+            res.append(Outcome(o.kind, gand(v.alts[1][0], o.guard), o.value, o.mem, o.msg))
+    return res
+
+
+def m_vec_pop(I, fr, a, ck):
+    s = _seq(I, fr, a[0])
+    if not s.items:
+        return NONE
+    write_mref(I, fr, a[0], Seq(s.items[:-1]))
+    return some(s.items[-1])
+
+
+def m_vec_insert(I, fr, a, ck):
+    s = _seq(I, fr, a[0])
+    i = a[1]
+    if not isinstance(i, int):
+        raise EngineError('Vec::insert at symbolic index')
+    if i > len(s.items):
+        return Outs([panic(True, 'insertion index out of bounds')])
+    write_mref(I, fr, a[0], Seq(s.items[:i] + (a[2],) + s.items[i:]))
+    return UNIT
+
+
+def m_vec_remove(I, fr, a, ck):
+    s = _seq(I, fr, a[0])
+    i = a[1]
+    if not isinstance(i, int):
+        raise EngineError('Vec::remove at symbolic index')
+    if i >= len(s.items):
+        return Outs([panic(True, 'removal index out of bounds')])
+    write_mref(I, fr, a[0], Seq(s.items[:i] + s.items[i + 1:]))
+    return s.items[i]
+
+
+def m_vec_extend(I, fr, a, ck):
+    s = _seq(I, fr, a[0])
+    it = to_iter(I, fr, m_into_iter(I, fr, [a[1]], ck))
+    res = Outs()
+    base = fr.mem
+    r = a[0]
+    for g, acc, mem in drain(I, fr, it):
+        if isinstance(acc, Outcome):
+            res.append(Outcome('panic', g, None, None, acc.msg))
+            continue
+        m = dict(mem)
+        m[r.cell] = set_mpath(I, mem[r.cell], r.path, Seq(s.items + tuple(acc)))
+        res.append(Outcome('ret', g, UNIT, m))
+    return res
+
+
+def m_vec_clear(I, fr, a, ck):
+    write_mref(I, fr, a[0], Seq(()))
+    return UNIT
+
+
+def m_map_contains_key(I, fr, a, ck):
+    t = I.peel_all(a[0], fr)
+    key = I.peel_all(a[1], fr)
+    if isinstance(t, MapV):
+        r = map_get(I, fr, t, key)
+        if isinstance(r, Outs):
+            raise EngineError('panic in key comparison')
+        return r.alts[1][0] if 1 in r.alts else False
+    raise EngineError('contains_key on %s' % type(t).__name__)
+
+
+def m_map_clear(I, fr, a, ck):
+    t = I.peel_all(a[0], fr)
+    if isinstance(t, MapV):
+        write_mref(I, fr, a[0], MapV(()))
+        return UNIT
+    raise EngineError('clear on the unique table is not modelled')
+
+
+def m_map_remove(I, fr, a, ck):
+    t = I.peel_all(a[0], fr)
+    key = I.peel_all(a[1], fr)
+    if isinstance(t, MapV):
+        old = map_get(I, fr, t, key)
+        if isinstance(old, Outs):
+            raise EngineError('panic in key comparison')
+        items = []
+        for g, k, v in t.items:
+            e, p = _single_bool(I, fr, value_eq_call(I, fr, k, key))
+            items.append((gand(g, gnot(e)), k, v))
+        write_mref(I, fr, a[0], MapV(items))
+        alts = {}
+        for idx, (g, fs) in old.alts.items():
+            alts[idx] = (g, tuple(f.val if isinstance(f, SRef) else f for f in fs))
+        return Adt('Option', alts)
+    raise Unsupported('removal from the unique table (the table model has no removal)')
+
+
+def register_more(M):
+    A = M.add
+    for m in ('sort', 'sort_unstable', 'sort_by', 'sort_unstable_by'):
+        A('slice', None, m, m_sort)
+        A('Vec', None, m, m_sort)
+    A('Vec', None, 'dedup', m_dedup)
+    A('Vec', None, 'retain', m_vec_retain)
+    A('Vec', None, 'pop', m_vec_pop)
+    A('Vec', None, 'insert', m_vec_insert)
+    A('Vec', None, 'remove', m_vec_remove)
+    A('Vec', None, 'clear', m_vec_clear)
+    A('Vec', 'Extend', 'extend', m_vec_extend)
+    A('Vec', None, 'contains', m_slice_contains)
+    A(None, 'Iterator', 'filter', m_iter_filter)
+    A(None, 'Iterator', 'rev', m_iter_rev)
+    A(None, 'Iterator', 'skip', m_iter_skip)
+    A(None, 'Iterator', 'take', m_iter_take)
+    A(None, 'Iterator', 'zip', m_iter_zip)
+    A(None, 'Iterator', 'all', m_iter_all)
+    A(None, 'Iterator', 'count', m_iter_count)
+    A(None, 'Iterator', 'position', m_iter_position)
+    A(None, 'Iterator', 'find', m_iter_find)
+    A('Rc', None, 'ptr_eq', m_rc_ptr_eq)
+    A('Option', None, 'map', m_option_map)
+    A('Option', None, 'unwrap_or', m_option_unwrap_or)
+    A('Option', None, 'map_or', m_option_map_or)
+    A('HashMap', None, 'contains_key', m_map_contains_key)
+    A('HashMap', None, 'clear', m_map_clear)
+    A('HashMap', None, 'remove', m_map_remove)
+    A('HashMap', None, 'new', m_map_default)
+    A('HashSet', 'Default', 'default', m_map_default)
